@@ -255,7 +255,7 @@ PLANS["C12"] = dict(
 )
 
 PLANS["C01"] = dict(
-    suites=[Suite("tl", 600, 50000), Suite("merged", 100, 3000)],
+    suites=[Suite("tl", 600, 50000), Suite("merged", 100, 3000), Suite("sub", 300, 10000)],
     floors=TL_FLOORS,
     assumptions=["keyframes as the builder hands them over: sorted (C11), positions in [0,1]; exact arithmetic — the binary32 evaluation of the same model term is what is compared with the code"],
 )
